@@ -91,9 +91,38 @@ def pick_symbolic(prog, rot, max_ops=3, max_str=2, max_full=2):
     return chosen, full
 
 
+def c07_invariants(prog, o):
+    """C07 on a conforming program: the statements tile the stream (checked by edits.c07_violations), each starts
+    at column 1 and ends at a line end, there is one statement per generated line, and the scope is back at file
+    level after each function"""
+    from harness.edits import c07_violations
+    v = list(c07_violations(o))
+    if o.kind != "ok":
+        return v           # acceptance is C01's subject
+    if len(o.segments) != len(prog.lines):
+        v.append(("C07:statement-count", f"{len(o.segments)} statements recognised in a file of {len(prog.lines)} one-statement lines"))
+    for k, (col, last, scope, lvl, rule, ln) in enumerate(o.seginfo):
+        if col is not None and not (col == 1):
+            v.append((f"C07:statement-not-at-line-start:{rule}", f"statement {rule} starts at column {col}"))
+            break
+        if last != "NEWLINE":
+            v.append((f"C07:statement-not-ending-at-eol:{rule}", f"statement {rule} ends with {last}"))
+            break
+    if len(o.seginfo) == len(prog.lines):
+        for l, si in zip(prog.lines, o.seginfo):
+            if l.kind == "func_close" and not (si[2] == "GlobalScope" and si[3] == 0):
+                v.append(("C07:scope-not-global-after-function", f"after the closing brace of a function the scope is {si[2]} (level {si[3]})"))
+                break
+            if l.kind in ("stmt", "decl", "ctrl") and si[2] == "GlobalScope":
+                v.append((f"C07:scope-global-inside-function:{l.kind}", "a statement inside a function is processed at file scope"))
+                break
+    return v
+
+
 def run_chunk(chunk, ctx):
     ex = Explorer()
     core.set_run(ex)
+    c07 = ctx.get("prop") == "C07"
     if "micro" in chunk:
         prog = F.micro_programs()[chunk["micro"]]
         sym, full = pick_symbolic(prog, 0, 99, 99, 1)
@@ -106,13 +135,13 @@ def run_chunk(chunk, ctx):
 
     def body():
         cur.clear()
-        o = P.run_text(prog.name, SymStr(items), keep_tokens=True)
-        vs = violations(o)
+        o = P.run_text(prog.name, SymStr(items), keep_tokens=not c07, monitor=c07)
+        vs = c07_invariants(prog, o) if c07 else violations(o)
         if vs:
             m = ex.model()
             text = SymStr(items).concretize(m)
             for fp, what in vs:
-                col.violation(fp, what, dict(name=prog.name, text=text))
+                col.violation(fp, what, dict(name=prog.name, text=text, c07=dict(chunk, tier=ctx["tier"]) if c07 else None))
             cur["viol"] = True
         return dict(kind=o.kind, errors=[list(e) for e in o.errors])
 
@@ -126,7 +155,7 @@ def run_chunk(chunk, ctx):
                           dict(name=prog.name, text=SymStr(items).concretize(m)))
         elif status == "ok" and not cur.get("viol") and col.want_witness():
             m = ex.model()
-            col.add_witness(dict(name=prog.name, text=SymStr(items).concretize(m)), conc(res, m))
+            col.add_witness(dict(name=prog.name, text=SymStr(items).concretize(m), c07=dict(chunk, tier=ctx["tier"]) if c07 else None), conc(res, m))
 
     left = max(1.0, min(ctx.get("chunk_time", 120), ctx["deadline"] - time.time()))
     ex.explore(body, on_path=on_path, max_time=left, path_alarm=10.0)
@@ -138,6 +167,11 @@ def run_chunk(chunk, ctx):
 
 
 def replay(case):
+    if case.get("c07"):
+        ch = case["c07"]
+        prog = F.micro_programs()[ch["micro"]] if "micro" in ch else F.program(ch["seed"], ch.get("tier", "quick"), ch["kind"])
+        o = P.run_text(case["name"], case["text"], monitor=True)
+        return dict(digest=dict(kind=o.kind, errors=[list(e) for e in o.errors]), violations=[list(v) for v in c07_invariants(prog, o)])
     o = P.run_text(case["name"], case["text"], keep_tokens=True)
     return dict(digest=dict(kind=o.kind, errors=[list(e) for e in o.errors]),
                 violations=[list(v) for v in violations(o)])
